@@ -1,39 +1,136 @@
-(* C03: dijkstra_optimal_full64 with the binary64 facts discharged (Proofs/PropFloatFacts.v). *)
+(* C03: the optimality theorem of Proofs/PropOptimal.v instantiated
+   (a) with the Full64 key: every input,
+   (b) with the key as written (Dropped): every input on which the dropped mantissa bit is 0 for the
+       cost of every mask path of at most m*n steps from a masked seed - there the key reflects order
+       and the loop is optimal; finding F7 lives exactly outside this class.
+   The binary64 facts are discharged in Proofs/PropFloatFacts.v, the step-cost hypothesis in
+   Proofs/PropStepCost.v. *)
 From Coq Require Import ZArith List Bool Lia.
 From Coq Require PrimFloat.
-From Centro Require Import Base.PropFloat Model.PropHeap Model.Propagate Spec.PropCheck Proofs.PropDijkstra Proofs.PropOptimal
-     Proofs.PropFloatFacts.
+From Centro Require Import Base.PropFloat Model.PropHeap Model.Propagate Spec.PropCheck Proofs.PropKey Proofs.PropHeapKey
+     Proofs.PropDijkstra Proofs.PropOptimal Proofs.PropFloatFacts Proofs.PropStepCost.
 Import ListNotations.
 Open Scope Z_scope.
+Ltac Zify.zify_post_hook ::= Z.to_euclidean_division_equations.
 
-Theorem dijkstra_optimal_full64 : forall image labels mask m n weight lo d,
-  shape labels m n ->
-  (forall v, inr m n v -> 0 <= labv labels v) ->
-  (forall u v, inr m n u -> inr m n v -> adj8 u v -> okF (stepF image m n weight u v)) ->
-  propagate Full64 image labels mask m n weight = Some (lo, d) ->
-  forall v, inr m n v -> labv labels v = 0 ->
-    let dv := get2 PrimFloat.zero d (fst v) (snd v) in
-    (forall x l, reachL image mask m n weight labels v x l -> okF dv /\ bitsD dv <= bitsD x) /\
-    (okF dv -> exists x, bitsD x = bitsD dv /\ reachL image mask m n weight labels v x (get2 0 lo (fst v) (snd v))) /\
-    (dv = neg_one \/ okF dv).
+Lemma hkey_mkrow : forall k b l v, ok64 b ->
+  hkey (mkrow k b l v) = (b / two32, match k with Dropped => (b mod two32) / 2 | Full64 => b mod two32 end).
 Proof.
-  intros image labels mask m n weight lo d Hsh Hnn Hw HP v Hv Hl.
-  exact (dijkstra_optimal_full64_sec image mask m n weight labels
-           ltb_bits eqb_neg_one_false add_ge_r
-           (fun s x y Hs Hx Hy H => proj2 (proj2 (add_mono_r s x y Hs Hx Hy H)))
-           Hw Hnn Hsh lo d HP v Hv Hl).
+  intros k b l v [H0 H1]. unfold hkey, mkrow, most_sig, least_sig, bits_inf, two32, two31 in *. cbn [nth].
+  assert (E : (b / 4294967296 >=? 2147483648) = false) by lia. rewrite E. destruct k; reflexivity.
 Qed.
 
-
-(* the input hypotheses are satisfiable: a 1x2 image (0, 1), weight 1 - every step cost is a non-negative double *)
-Example optimal_example :
-  let image := map (map float_of_bits) [[0; 4607182418800017408]] in
-  shape [[1; 0]] 1 2 /\
-  (forall u v, inr 1 2 u -> inr 1 2 v -> adj8 u v -> okF (stepF image 1 2 PrimFloat.one u v)).
+Lemma K_le_full64 : forall a b l l' v v', ok64 a -> ok64 b -> True -> True ->
+  (le_key (mkrow Full64 a l v) (mkrow Full64 b l' v') <-> a <= b).
 Proof.
-  cbn zeta. split; [split; [reflexivity | repeat constructor]|].
-  intros [a b] [c d] [Ha Hb] [Hc Hd] _. cbn [fst snd] in *.
-  assert (a = 0) by lia. assert (c = 0) by lia. subst a c.
-  assert (Eb : b = 0 \/ b = 1) by lia. assert (Ed : d = 0 \/ d = 1) by lia.
-  destruct Eb as [-> | ->], Ed as [-> | ->]; unfold okF, ok64; vm_compute; split; discriminate.
+  intros a b l l' v v' Ha Hb _ _. unfold le_key. rewrite (hkey_mkrow Full64 a l v Ha), (hkey_mkrow Full64 b l' v' Hb).
+  unfold lexle2, ok64, bits_inf, two32 in *. cbn [fst snd]. lia.
+Qed.
+
+Definition low_bit_zero (b : Z) : Prop := b mod 2 = 0.
+
+Lemma K_le_dropped : forall a b l l' v v', ok64 a -> ok64 b -> low_bit_zero a -> low_bit_zero b ->
+  (le_key (mkrow Dropped a l v) (mkrow Dropped b l' v') <-> a <= b).
+Proof.
+  intros a b l l' v v' Ha Hb Ea Eb. unfold le_key. rewrite (hkey_mkrow Dropped a l v Ha), (hkey_mkrow Dropped b l' v' Hb).
+  unfold lexle2, ok64, bits_inf, two32, low_bit_zero in *. cbn [fst snd]. lia.
+Qed.
+
+Definition steps_ok (image : list (list float)) (m n : Z) (weight : float) : Prop :=
+  forall u v, inr m n u -> inr m n v -> adj8 u v -> okF (stepF image m n weight u v).
+
+Definition optimal_at (image : list (list float)) (labels : list (list Z)) (mask : list (list bool)) (m n : Z)
+           (weight : float) (lo : list (list Z)) (d : list (list float)) (v : Z * Z) : Prop :=
+  let dv := get2 PrimFloat.zero d (fst v) (snd v) in
+  (forall x l k, reachL image mask m n weight labels v x l k -> okF dv /\ bitsD dv <= bitsD x) /\
+  (okF dv -> exists x k, bitsD x = bitsD dv /\ reachL image mask m n weight labels v x (get2 0 lo (fst v) (snd v)) k) /\
+  (dv = neg_one \/ okF dv).
+
+Theorem dijkstra_optimal_full64_steps : forall image labels mask m n weight lo d,
+  shape labels m n -> (forall v, inr m n v -> 0 <= labv labels v) -> steps_ok image m n weight ->
+  propagate Full64 image labels mask m n weight = Some (lo, d) ->
+  forall v, inr m n v -> labv labels v = 0 -> optimal_at image labels mask m n weight lo d v.
+Proof.
+  intros image labels mask m n weight lo d Hsh Hnn Hw HP v Hv Hl.
+  exact (dijkstra_optimal_sec image mask m n weight labels Full64 (fun _ => True)
+           ltb_bits eqb_neg_one_false add_ge_r
+           (fun s x y Hs Hx Hy H => proj2 (proj2 (add_mono_r s x y Hs Hx Hy H)))
+           Hw Hnn Hsh K_le_full64 I (fun _ _ _ _ _ _ => I) lo d HP v Hv Hl).
+Qed.
+
+Theorem dijkstra_optimal_dropped_steps : forall image labels mask m n weight lo d,
+  shape labels m n -> (forall v, inr m n v -> 0 <= labv labels v) -> steps_ok image m n weight ->
+  (forall v x l k, reachL image mask m n weight labels v x l k -> (k <= Z.to_nat m * Z.to_nat n)%nat ->
+                   low_bit_zero (bitsD x)) ->
+  propagate Dropped image labels mask m n weight = Some (lo, d) ->
+  forall v, inr m n v -> labv labels v = 0 -> optimal_at image labels mask m n weight lo d v.
+Proof.
+  intros image labels mask m n weight lo d Hsh Hnn Hw HE HP v Hv Hl.
+  exact (dijkstra_optimal_sec image mask m n weight labels Dropped low_bit_zero
+           ltb_bits eqb_neg_one_false add_ge_r
+           (fun s x y Hs Hx Hy H => proj2 (proj2 (add_mono_r s x y Hs Hx Hy H)))
+           Hw Hnn Hsh K_le_dropped eq_refl HE lo d HP v Hv Hl).
+Qed.
+
+(* ---------- the step-cost hypothesis follows from finiteness of the inputs ---------- *)
+Lemma steps_ok_finite : forall image m n weight, Forall (Forall finF) image -> finF weight -> steps_ok image m n weight.
+Proof.
+  intros image m n weight Hi Hw u v _ _ [o [Ho ->]]. unfold stepF. cbn [fst snd].
+  apply step_cost_ok; [exact Hi | exact Hw|].
+  unfold offsets8 in Ho. cbn [In] in Ho.
+  repeat (destruct Ho as [Ho|Ho]; [subst o; cbn [fst snd]; lia|]). destruct Ho.
+Qed.
+
+(* every finite input: the Full64-key loop is optimal *)
+Theorem dijkstra_optimal_full64 : forall image labels mask m n weight lo d,
+  shape labels m n -> (forall v, inr m n v -> 0 <= labv labels v) ->
+  Forall (Forall finF) image -> finF weight ->
+  propagate Full64 image labels mask m n weight = Some (lo, d) ->
+  forall v, inr m n v -> labv labels v = 0 -> optimal_at image labels mask m n weight lo d v.
+Proof.
+  intros image labels mask m n weight lo d Hsh Hnn Hi Hw. apply dijkstra_optimal_full64_steps; try assumption.
+  apply steps_ok_finite; assumption.
+Qed.
+
+(* every finite input on which the dropped bit is 0 for the cost of every mask path of at most m*n steps:
+   the loop as written is optimal *)
+Theorem dijkstra_optimal_dropped_when_key_reflects : forall image labels mask m n weight lo d,
+  shape labels m n -> (forall v, inr m n v -> 0 <= labv labels v) ->
+  Forall (Forall finF) image -> finF weight ->
+  (forall v x l k, reachL image mask m n weight labels v x l k -> (k <= Z.to_nat m * Z.to_nat n)%nat ->
+                   low_bit_zero (bitsD x)) ->
+  propagate Dropped image labels mask m n weight = Some (lo, d) ->
+  forall v, inr m n v -> labv labels v = 0 -> optimal_at image labels mask m n weight lo d v.
+Proof.
+  intros image labels mask m n weight lo d Hsh Hnn Hi Hw. apply dijkstra_optimal_dropped_steps; try assumption.
+  apply steps_ok_finite; assumption.
+Qed.
+
+(* the hypotheses are satisfiable on a non-trivial input: image (0 1), seed at (0,0), weight 0: every step costs
+   3.0, the paths of at most 2 steps cost 0, 3, 6 - all with dropped bit 0 *)
+Example dropped_reflects_example :
+  let image := map (map float_of_bits) [[0; 4607182418800017408]] in
+  let labels := [[1; 0]] in let mask := [[true; true]] in
+  shape labels 1 2 /\ Forall (Forall finF) image /\ finF PrimFloat.zero /\
+  (forall v x l k, reachL image mask 1 2 PrimFloat.zero labels v x l k -> (k <= Z.to_nat 1 * Z.to_nat 2)%nat ->
+                   low_bit_zero (bitsD x)).
+Proof.
+  cbn zeta. split; [split; [reflexivity | repeat constructor]|]. split; [repeat constructor|]. split; [reflexivity|].
+  set (image := map (map float_of_bits) [[0; 4607182418800017408]]).
+  assert (Hstep : forall u v, inr 1 2 u -> inr 1 2 v -> adj8 u v ->
+            stepF image 1 2 PrimFloat.zero u v = float_of_bits 4613937818241073152).
+  { intros [a b] [c d] [Ha Hb] [Hc Hd] [o [Ho Ev]]. cbn [fst snd] in *. inversion Ev. subst c d.
+    assert (a = 0) by lia. subst a.
+    assert (Eb : b = 0 \/ b = 1) by lia.
+    unfold offsets8 in Ho. cbn [In] in Ho.
+    repeat (destruct Ho as [Ho|Ho]; [subst o; cbn [fst snd] in *; destruct Eb as [-> | ->]; try lia; vm_compute; reflexivity|]).
+    destruct Ho. }
+  assert (Hc : forall v x l k, reachL image [[true; true]] 1 2 PrimFloat.zero [[1; 0]] v x l k ->
+            inr 1 2 v /\ x = Nat.iter k (PrimFloat.add (float_of_bits 4613937818241073152)) PrimFloat.zero).
+  { induction 1 as [s Hi Hl Hm | u v x l k H IH Ha Hi Hm].
+    - split; [exact Hi | reflexivity].
+    - destruct IH as [Hu ->]. split; [exact Hi|]. rewrite (Hstep u v Hu Hi Ha). reflexivity. }
+  intros v x l k H Hk. destruct (Hc v x l k H) as [_ ->].
+  change (Z.to_nat 1 * Z.to_nat 2)%nat with 2%nat in Hk.
+  destruct k as [|[|[|k]]]; [vm_compute; reflexivity | vm_compute; reflexivity | vm_compute; reflexivity | lia].
 Qed.
